@@ -50,6 +50,11 @@ class Hist:
         if k not in self.res:
             self.res[k] = self.nid
 
+    def reins(self, k):
+        """offer the resident node object itself a second time"""
+        if k in self.res:
+            self.ops.append("J %d %d" % (self.res[k], k))
+
     def rem(self, k):
         self.ops.append("R %d" % k)
         self.res.pop(k, None)
@@ -67,6 +72,9 @@ def gen_perms(n, rem_orders, rng, out):
             h = Hist("perm%d/%d/%d" % (n, a, b))
             for k in p:
                 h.ins(k)
+            if b == 0:
+                for k in q:
+                    h.reins(k)           # every resident object of this shape offered again, in the removal order
             for k in q:
                 h.rem(k)
             out.append(h)
@@ -111,7 +119,10 @@ def gen_random(rng, name, length, krange, style):
             pi, pr = 0.5, 0.5
         x = rng.random()
         if x < pi:
-            if rng.random() < 0.08:
+            y = rng.random()
+            if y < 0.04:
+                h.reins(some_resident())        # the resident object itself, offered again
+            elif y < 0.10:
                 h.ins(some_resident())          # duplicate insert on purpose
             else:
                 h.ins(rng.randrange(krange))
@@ -400,7 +411,7 @@ def oracle(ops, lines, every=1):
         f = op.split()
         before = dict(state)
         broot = root
-        if f[0] == "I":
+        if f[0] in ("I", "J"):
             nid, k = int(f[1]), int(f[2])
             exp = spec.get(k, 0)
             if ret != exp:
@@ -448,7 +459,10 @@ def c_fails(cbin, ops):
 
 def shrink(cbin, ops, upto):
     ops = ops[:upto + 1]
-    small = vlib.ddmin(ops, lambda cand: c_fails(cbin, cand) is not None, max_tests=300)
+    def still_fails(cand):
+        r = c_fails(cbin, cand)
+        return r is not None and not r[1].startswith("driver error")     # a J whose I was removed is not a smaller failure
+    small = vlib.ddmin(ops, still_fails, max_tests=300)
     return small
 
 
